@@ -12,6 +12,8 @@
 (*  pkt    a packet to protect and unprotect: type x connection-id lengths x packet   *)
 (*         number distance class x payload size class x token length (judged after    *)
 (*         execution by Trace.tla, which needs the observed header)                   *)
+(*  ackn   an ACK frame with n ranges and a room class (exported with the packet      *)
+(*         cases; judged after execution: a truncating writer has a choice)           *)
 EXTENDS QuicFrames, QuicTP, QuicPackets, TLC, Json
 
 CONSTANTS Which,     \* subset of {"frame", "tp", "pkt"}
@@ -167,6 +169,22 @@ PktCases ==
                                             n \in (IF Rich THEN {1, 2, 3, 4, 5, 1000} ELSE {2})}
     \* token lengths
     \cup {PktCase("initial", 8, 8, tl, 1, FALSE, n) : tl \in {0, 1, 63, 64, 300}, n \in (IF Rich THEN {1, 1100} ELSE {5})}
+    \* pay = 0: as much payload as the writer allows in a 20000-byte datagram.  The Length field
+    \* of a long header is written into two reserved bytes (at most 16383), for every packet
+    \* number length
+    \cup {PktCase(pt, dl, 4, 0, d, FALSE, 0) : pt \in {"initial", "handshake", "0rtt"}, dl \in {8} \cup (IF Rich THEN {0, 20} ELSE {}),
+                                              d \in {1, 128, 32768, 8388608}}
+
+\* ACK frames around the structural limits of the writer: the ACK Range Count is written into
+\* one reserved byte (at most 63 further ranges), and ranges that do not fit are dropped from the
+\* low end.  n single-packet ranges with small gaps, written with ample room and with room that
+\* cuts the list; Trace.tla judges what was written (Fitted: the highest k >= 1 ranges, the whole
+\* frame consumed by the parser).
+AckNCases ==
+    {[k |-> "ackn", n |-> n, gap |-> g, ecn |-> e, room |-> r] :
+        n \in {1, 2, 62, 63, 64, 65, 66, 100} \cup (IF Rich THEN {3, 61, 67, 127, 128, 200} ELSE {}),
+        g \in {0} \cup (IF Rich THEN {1, 63, 64} ELSE {}), e \in BOOLEAN,
+        r \in {"ample", "exact", "minus1", "half", "twothirds", "tiny"}}
 
 (* ------------------------------------------------------------------ enumeration *)
 Groups == (IF "frame" \in Which THEN {<<"frame", g>> : g \in Kinds} ELSE {})
@@ -178,7 +196,7 @@ TPGroup(b) == CASE Len(b) > 0 /\ b[1] = 14 /\ Len(b) > 3 -> "b" [] Len(b) % 2 = 
 Members(g) ==
     CASE g[1] = "frame" -> {[k |-> "frame", x |-> f] : f \in {h \in Frames : h.k = g[2]}}
       [] g[1] = "tp"    -> {[k |-> "tp", x |-> b] : b \in {y \in TPInputs : TPGroup(y) = g[2]}}
-      [] g[1] = "pkt"   -> {[k |-> "pkt", x |-> p] : p \in PktCases}
+      [] g[1] = "pkt"   -> {[k |-> "pkt", x |-> p] : p \in PktCases \cup AckNCases}
 
 Init == c \in {[k |-> "grp", x |-> g] : g \in Groups}
 Next == c.k = "grp" /\ c' \in Members(c.x)
